@@ -39,6 +39,10 @@ class WorkerTmp:
             os.close(fd)
             raise
 
+        # the arbiter compares the mtime with the monotonic clock: start from it,
+        # or a worker that hangs before its first notify() is never timed out
+        self.notify()
+
     def notify(self):
         new_time = time.monotonic()
         os.utime(self._tmp.fileno(), (new_time, new_time))
